@@ -115,7 +115,7 @@ def fuzz_signature(op, verdict, table):
     row = table.get(int(op[1])) if len(op) > 1 and op[1].isdigit() else None
     where = f"{op[2]}{row['pattern']}" if row else "?"
     what = kv(op, "what") or "?"
-    what = "body" if what.startswith("body:") else what
+    what = "body" if what.startswith("body:") else (":".join(what.split(":")[:2]) if what.startswith("hdr:") else what)
     if verdict.startswith("FAIL oracle"):
         w = verdict.split()
         loc = "?"
